@@ -341,17 +341,21 @@ Variable dr : Z -> list (Z * Z) -> option (list (Z * Z)).
 
 (* the four outcomes of replyDelMsg + messagesMapper.DeleteList.  [n] = 0: the calls of the
    request are adapter calls 1 (MessageDeleteList), 2 (TopicUpdate), 3 (SubsUpdate). *)
-Definition del_denied (s : store) (c : cache) (sid u : N) (h : hres) : Prop :=
-  is_deleter (user_mode c u) = false /\ is_reader (user_mode c u) = false /\
+(* the permission gate: the hard flag is decided first (asked for AND D in the effective mode,
+   otherwise the request is silently soft); a soft deletion needs R *)
+Definition del_allowed (c : cache) (u : N) (hard0 : bool) : bool :=
+  (hard0 && is_deleter (user_mode c u)) || is_reader (user_mode c u).
+Definition del_denied (s : store) (c : cache) (sid u : N) (hard0 : bool) (h : hres) : Prop :=
+  hard0 && is_deleter (user_mode c u) = false /\ is_reader (user_mode c u) = false /\
   h_out h = [(sid, Ctrl 403 [])] /\ h_st h = s /\ h_ca h = c.
-Definition del_malformed (s : store) (c : cache) (sid u : N) (req : list (Z * Z)) (h : hres) : Prop :=
-  (is_deleter (user_mode c u) = true \/ is_reader (user_mode c u) = true) /\
+Definition del_malformed (s : store) (c : cache) (sid u : N) (req : list (Z * Z)) (hard0 : bool) (h : hres) : Prop :=
+  del_allowed c u hard0 = true /\
   dr (c_lastid c) req = None /\ h_out h = [(sid, Ctrl 400 [])] /\ h_st h = s /\ h_ca h = c.
-Definition del_store_failed (s : store) (c : cache) (sid u : N) (req : list (Z * Z)) (h : hres) : Prop :=
-  (is_deleter (user_mode c u) = true \/ is_reader (user_mode c u) = true) /\
+Definition del_store_failed (s : store) (c : cache) (sid u : N) (req : list (Z * Z)) (hard0 : bool) (h : hres) : Prop :=
+  del_allowed c u hard0 = true /\
   dr (c_lastid c) req <> None /\ h_out h = [(sid, Ctrl 500 [])] /\ h_st h = s /\ h_ca h = c.
 Definition del_accepted (s : store) (c : cache) (sid u : N) (req : list (Z * Z)) (hard0 : bool) (h : hres) : Prop :=
-  (is_deleter (user_mode c u) = true \/ is_reader (user_mode c u) = true) /\
+  del_allowed c u hard0 = true /\
   exists ranges, dr (c_lastid c) req = Some ranges /\
     let hard := hard0 && is_deleter (user_mode c u) in     (* without D the request is silently soft *)
     let fu := if hard then 0%N else u in
@@ -363,22 +367,22 @@ Definition del_accepted (s : store) (c : cache) (sid u : N) (req : list (Z * Z))
 Lemma del_msg_cases f s c sid u req hard0 :
   fails f 1 = true \/ (fails f 2 = false /\ fails f 3 = false) ->
   let h := del_msg dr f s c 0 sid u req hard0 in
-  del_denied s c sid u h \/ del_malformed s c sid u req h \/ del_store_failed s c sid u req h \/
+  del_denied s c sid u hard0 h \/ del_malformed s c sid u req hard0 h \/ del_store_failed s c sid u req hard0 h \/
   del_accepted s c sid u req hard0 h.
 Proof.
   intros FO. cbn zeta. unfold del_msg.
-  destruct (is_deleter (user_mode c u)) eqn:ED; destruct (is_reader (user_mode c u)) eqn:ER; cbn [negb andb];
-    try (left; unfold del_denied; rewrite ED, ER; repeat split; fail).
-  all: assert (is_deleter (user_mode c u) = true \/ is_reader (user_mode c u) = true) as PERM by (rewrite ED, ER; auto).
+  destruct (hard0 && is_deleter (user_mode c u)) eqn:EH; destruct (is_reader (user_mode c u)) eqn:ER; cbn [negb andb];
+    try (left; unfold del_denied; rewrite EH, ER; repeat split; fail).
+  all: assert (del_allowed c u hard0 = true) as PERM by (unfold del_allowed; rewrite EH, ER; reflexivity).
   all: destruct (dr (c_lastid c) req) as [ranges|] eqn:DR;
     [|right; left; unfold del_malformed; rewrite DR; repeat split; auto].
   all: unfold call; cbn [negb].
   all: destruct (fails f 1) eqn:F1; cbn [negb];
     [right; right; left; unfold del_store_failed; rewrite DR; repeat split; auto; discriminate|].
   all: destruct FO as [FO|[F2 F3]]; [discriminate|]; rewrite F2, F3; cbn [negb].
-  all: right; right; right; unfold del_accepted; split; [exact PERM|]; exists ranges; rewrite ED;
-    split; [exact DR|]; cbn zeta; rewrite ?andb_true_r, ?andb_false_r;
-    destruct hard0; cbn [h_out h_st h_ca c_delid c_set_delid c_set_users c_lastid c_sess andb]; repeat split.
+  all: right; right; right; unfold del_accepted; split; [exact PERM|]; exists ranges; rewrite EH;
+    split; [exact DR|]; cbn zeta;
+    cbn [h_out h_st h_ca c_delid c_set_delid c_set_users c_lastid c_sess andb]; repeat split.
 Qed.
 End Del.
 
@@ -873,7 +877,7 @@ Lemma del_msg_wf f s c n sid u req hard : log_inv s c ->
   log_inv (h_st (del_msg dr f s c n sid u req hard)) (h_ca (del_msg dr f s c n sid u req hard)).
 Proof.
   intros [H HC]. unfold del_msg.
-  destruct (negb (is_deleter (user_mode c u)) && negb (is_reader (user_mode c u))); [split; assumption|].
+  destruct (negb (hard && is_deleter (user_mode c u)) && negb (is_reader (user_mode c u))); [split; assumption|].
   destruct (dr (c_lastid c) req) as [rs|] eqn:DR; [|split; assumption].
   pose proof (dellog_wf_delete_list s (c_delid c + 1) (if hard && is_deleter (user_mode c u) then 0%N else u) rs
                 ltac:(lia) (dr_wf _ _ _ DR) H) as W.
